@@ -198,6 +198,36 @@ pub fn run(ctx: &Ctx) -> Report {
         }
         singles.push(E::A(Act::Printf(vec![FEl::E(Esc::Clear), FEl::F(f.clone())])));
     }
+    // formats with several \c: an unsupported directive between them, after the last one, before the first
+    for f in gen::unsupported_fields() {
+        singles.push(E::A(Act::Printf(vec![FEl::F(Fld::Name), FEl::E(Esc::Clear), FEl::Lit(" ".into()), FEl::F(f.clone()), FEl::E(Esc::Clear), FEl::E(Esc::Newline)])));
+        singles.push(E::A(Act::Printf(vec![FEl::E(Esc::Clear), FEl::E(Esc::Clear), FEl::F(f.clone())])));
+        singles.push(E::A(Act::FPrintf("o".into(), vec![FEl::E(Esc::Clear), FEl::F(f.clone()), FEl::E(Esc::Clear), FEl::E(Esc::Clear)])));
+    }
+    // every unsupported string-valued test with every word of the dictionary taken from the sources
+    // under test (an argument that is special to the code must not turn the refusal off)
+    for w in crate::dict::words().into_iter().chain(crate::dict::paths()) {
+        for t in [
+            UTest::AccessNewer(w.clone()),
+            UTest::ChangeNewer(w.clone()),
+            UTest::ModifyNewer(w.clone()),
+            UTest::FsType(w.clone()),
+            UTest::Group(w.clone()),
+            UTest::User(w.clone()),
+            UTest::ILName(w.clone()),
+            UTest::LName(w.clone()),
+            UTest::IRegex(w.clone()),
+            UTest::Regex(w.clone()),
+            UTest::Samefile(w.clone()),
+        ] {
+            let t = E::and(E::T(Tst::True), E::T(Tst::U(t)));
+            let v = judge(&t);
+            st.record(&v, stable_hash(&t), true, || case_json(&t));
+        }
+        let t = E::A(Act::Fls(w.clone()));
+        let v = judge(&t);
+        st.record(&v, stable_hash(&t), true, || case_json(&t));
+    }
     for u in &singles {
         let shapes = vec![
             u.clone(),
